@@ -25,12 +25,16 @@ package jlib
 //@   loop 0 invariant v == res(old(v))
 //@   loop 0 invariant forall j in [0, i): !ufb_truthy(at(v, j))
 
-// String: the JSON string form of a value (json.Encoder: trusted, external)
+//@ func newError
+//@   props C09
+//@   ensures result != nil && fresh(result) && result.Type == typ
+//@   assigns nothing
+// String: the JSON string form of a value (the encoding itself is encoding/json's)
 //@ func String
 //@   props C03 C09 C16
 //@   ensures r1 != nil ==> len(r0) == 0
-//@   assigns nothing
-//@   trusted
+//@   ensures [C03:string-form-of-a-string-is-itself] typeis(value, "string") ==> (r1 == nil && same(r0, dyn(value, "string")))
+//@   assigns assumed nothing
 
 // --- C10 / C18: $power and $sqrt never hand out NaN or an infinity ------------------------------------------------------
 //@ func Power
@@ -174,12 +178,12 @@ package jlib
 //@   loop 0 invariant 0 <= i && !wraps(v) && (valid(v) ==> (arrKind(kind(v)) && canif(v))) && 1 <= argc && argc <= 3
 //@ func Reduce
 //@   props C15 C09
-//@   requires f != nil && ifaceable(v)
+//@   requires f != nil && ifaceable(v) && ifaceable(init.Value)
 //@   ensures [C15:needs-two-parameter-function] ret("iface:ParamCount#0", 0) != 2 ==> r1 != nil
 //@   ensures [C15:error-has-no-result] r1 != nil ==> r0 == nil
 //@   ensures [C15:left-fold-calls-the-function-once-per-remaining-member] r1 == nil ==> calls("iface:Call#0") == (arrKind(kind(ret("forceArray#0", 0))) ? rvlen(ret("forceArray#0", 0)) : 0) - ((!init.isSet && arrKind(kind(ret("forceArray#0", 0))) && rvlen(ret("forceArray#0", 0)) > 0) ? 1 : 0)
 //@   atcall[C15:accumulator-then-member] iface:Call#0 requires callee_recv == f && len(callee_arg1) == 2 && callee_arg1[0] == res && callee_arg1[1] == at(v, i)
-//@   loop 0 invariant 0 <= i && !wraps(v) && (valid(v) ==> (arrKind(kind(v)) && canif(v))) && err == nil && v == ret("forceArray#0", 0)
+//@   loop 0 invariant 0 <= i && !wraps(v) && (valid(v) ==> (arrKind(kind(v)) && canif(v))) && err == nil && v == ret("forceArray#0", 0) && ifaceable(res)
 //@   loop 0 invariant calls("iface:Call#0") == i - ((!init.isSet && arrKind(kind(v)) && rvlen(v) > 0) ? 1 : 0) && i <= (arrKind(kind(v)) ? rvlen(v) : 0)
 //@ func Single
 //@   props C15 C09
@@ -256,7 +260,6 @@ package jlib
 //@ func (StringCallable).toInterface
 //@   props C16 C17 C09
 //@   assigns nothing
-//@   trusted
 // replaceMatchFunc: the matches (all, or up to the limit) are replaced from the last to the first, so the offsets of
 // the earlier ones stay valid; a replacement template containing $ is expanded for every match (its groups differ
 // from match to match), a replacement function is called for every match.
@@ -349,10 +352,10 @@ package jlib
 //@   loop 0 invariant $i0 >= 0 ==> end == matches[$i0].indexes[1]
 //@ func callMatchFunc
 //@   props C17 C09
-//@   requires fn != nil
+//@   requires fn != nil && argsUsable(argv)
 //@   ensures r1 != nil ==> len(r0) == 0
 //@   assigns heap
-//@   trusted
+//@   loop 0 invariant -1 <= $i0 && len(groups) == rvlen(v) && arrKind(kind(v)) && !wraps(v)
 
 // --- C18: $number and $round ---------------------------------------------------------------------------------------------------
 // multByPow10 shifts the decimal exponent of x's *shortest* decimal form (%g: the digits that read back to the same
@@ -481,44 +484,48 @@ package jlib
 //@   requires fn != nil && ifaceable(obj)
 //@ func eachMap
 //@   props C14 C09
-//@   requires fn != nil && kind(v) == 21 && canif(v)
+//@   requires fn != nil && kind(v) == 21 && canif(v) && 1 <= ufi_paramcount(fn) && ufi_paramcount(fn) <= 3
 //@   ensures r1 != nil ==> len(r0) == 0
 //@   ensures [C14:one-call-per-member] r1 == nil ==> calls("iface:Call#0") == rvlen(v)
 //@   loop 0 invariant calls("iface:Call#0") == $i0 + 1
 //@   loop 0 calls [C14:every-member-visited-once] iface:Call#0
 //@   atcall[C14:value-name-object-trimmed-to-arity] iface:Call#0 requires callee_recv == fn && arr(callee_arg1) == arr(argv) && len(callee_arg1) == len(argv) && (len(argv) >= 1 ==> argv[0] == mapat(v, k)) && (len(argv) >= 2 ==> argv[1] == k) && (len(argv) >= 3 ==> argv[2] == v)
 //@   atif[C14:absent-results-dropped] "res.IsValid()" iff valid(ret("iface:Call#0", 0))
-//@   loop 0 invariant -1 <= $i0 && alloc(argv)
-//@   loop 1 invariant -1 <= $i1 && alloc(argv) && ($i1 >= 0 ==> argv[0] == mapat(v, k)) && ($i1 >= 1 ==> argv[1] == k) && ($i1 >= 2 ==> argv[2] == v) && calls("iface:Call#0") == $i0 + 1
+//@   loop 0 invariant -1 <= $i0 && alloc(argv) && len(argv) <= 3
+//@   loop 1 invariant -1 <= $i1 && alloc(argv) && len(argv) <= 3 && ($i1 >= 0 ==> argv[0] == mapat(v, k)) && ($i1 >= 1 ==> argv[1] == k) && ($i1 >= 2 ==> argv[2] == v) && calls("iface:Call#0") == $i0 + 1
+//@   loop 1 invariant ifaceable(k) && (forall j in [0, $i1 + 1): ifaceable(argv[j]))
 //@ func eachStruct
 //@   props C14 C09
-//@   requires fn != nil && kind(v) == 25 && canif(v)
+//@   requires fn != nil && kind(v) == 25 && canif(v) && 1 <= ufi_paramcount(fn) && ufi_paramcount(fn) <= 3
 //@   ensures r1 != nil ==> len(r0) == 0
 //@   atcall[C14:value-name-object-trimmed-to-arity] iface:Call#0 requires callee_recv == fn && arr(callee_arg1) == arr(argv) && len(callee_arg1) == len(argv) && (len(argv) >= 1 ==> argv[0] == fieldat(v, i)) && (len(argv) >= 3 ==> argv[2] == v)
 //@   atif[C14:absent-results-dropped] "res.IsValid()" iff valid(ret("iface:Call#0", 0))
-//@   loop 0 invariant 0 <= i && size == rvnumfield(v) && alloc(argv)
-//@   loop 1 invariant -1 <= $i1 && alloc(argv) && 0 <= i && i < size && ($i1 >= 0 ==> argv[0] == fieldat(v, i)) && ($i1 >= 2 ==> argv[2] == v)
+//@   loop 0 invariant 0 <= i && size == rvnumfield(v) && alloc(argv) && len(argv) <= 3
+//@   loop 1 invariant -1 <= $i1 && alloc(argv) && len(argv) <= 3 && 0 <= i && i < size && ($i1 >= 0 ==> argv[0] == fieldat(v, i)) && ($i1 >= 2 ==> argv[2] == v)
+//@   loop 1 invariant forall j in [1, $i1 + 1): ifaceable(argv[j])
 //@ func Sift
 //@   props C14 C09
 //@   requires fn != nil && ifaceable(obj)
 //@   ensures [C14:error-has-no-result] r1 != nil ==> r0 == nil
 //@ func siftMap
 //@   props C14 C09
-//@   requires fn != nil && kind(v) == 21 && canif(v)
+//@   requires fn != nil && kind(v) == 21 && canif(v) && 1 <= ufi_paramcount(fn) && ufi_paramcount(fn) <= 3
 //@   ensures r1 != nil ==> r0 == nil
 //@   loop 0 calls [C14:every-member-visited-once] iface:Call#0 when ret("AsString#0", 1) && valid(mapat(v, k)) && canif(mapat(v, k))
 //@   atcall[C14:value-name-object-trimmed-to-arity] iface:Call#0 requires callee_recv == fn && arr(callee_arg1) == arr(argv) && len(callee_arg1) == len(argv) && (len(argv) >= 1 ==> argv[0] == mapat(v, k)) && (len(argv) >= 2 ==> argv[1] == k) && (len(argv) >= 3 ==> argv[2] == v)
 //@   atif[C14:truthy-members-kept] "Boolean(res)" iff ufb_truthy(ret("iface:Call#0", 0))
-//@   loop 0 invariant -1 <= $i0 && alloc(argv)
-//@   loop 1 invariant -1 <= $i1 && alloc(argv) && val == mapat(v, k) && ($i1 >= 0 ==> argv[0] == mapat(v, k)) && ($i1 >= 1 ==> argv[1] == k) && ($i1 >= 2 ==> argv[2] == v)
+//@   loop 0 invariant -1 <= $i0 && alloc(argv) && len(argv) <= 3
+//@   loop 1 invariant -1 <= $i1 && alloc(argv) && len(argv) <= 3 && val == mapat(v, k) && ($i1 >= 0 ==> argv[0] == mapat(v, k)) && ($i1 >= 1 ==> argv[1] == k) && ($i1 >= 2 ==> argv[2] == v)
+//@   loop 1 invariant ifaceable(k) && valid(val) && canif(val) && (forall j in [0, $i1 + 1): ifaceable(argv[j]))
 //@ func siftStruct
 //@   props C14 C09
-//@   requires fn != nil && kind(v) == 25 && canif(v)
+//@   requires fn != nil && kind(v) == 25 && canif(v) && 1 <= ufi_paramcount(fn) && ufi_paramcount(fn) <= 3
 //@   ensures r1 != nil ==> r0 == nil
 //@   atcall[C14:value-name-object-trimmed-to-arity] iface:Call#0 requires callee_recv == fn && arr(callee_arg1) == arr(argv) && len(callee_arg1) == len(argv) && (len(argv) >= 1 ==> argv[0] == fieldat(v, i)) && (len(argv) >= 3 ==> argv[2] == v)
 //@   atif[C14:truthy-members-kept] "Boolean(res)" iff ufb_truthy(ret("iface:Call#0", 0))
-//@   loop 0 invariant 0 <= i && size == rvnumfield(v) && alloc(argv)
-//@   loop 1 invariant -1 <= $i1 && alloc(argv) && 0 <= i && i < size && val == fieldat(v, i) && ($i1 >= 0 ==> argv[0] == fieldat(v, i)) && ($i1 >= 2 ==> argv[2] == v)
+//@   loop 0 invariant 0 <= i && size == rvnumfield(v) && alloc(argv) && len(argv) <= 3
+//@   loop 1 invariant -1 <= $i1 && alloc(argv) && len(argv) <= 3 && 0 <= i && i < size && val == fieldat(v, i) && valid(val) && canif(val) && ($i1 >= 0 ==> argv[0] == fieldat(v, i)) && ($i1 >= 2 ==> argv[2] == v)
+//@   loop 1 invariant forall k in [0, $i1 + 1): ifaceable(argv[k])
 //@ func Keys
 //@   props C14 C09
 //@   requires ifaceable(obj)
